@@ -454,7 +454,9 @@ package eventbus
 
 // ---------------------------------------------------------------- publish / wait / shutdown
 //@ func Publish
-//@   props C01 C08 C09
+//@   props C01 C06 C08 C09
+// a publish without a caller context runs under context.Background(), which is never cancelled (so its asynchronous deliveries all run)
+//@   ensures [C06.publish.background] {C06,C08} lastarg(publishCtx, 1, Iface) == ctxBackground()
 //@   requires bus != nil && BusInv(bus) && PersistInv(bus)
 //@   ensures [delegates] cnt(publishCtx) == 1 && lastarg(publishCtx, 0) == bus && lastarg(publishCtx, 2) == event
 //@        && lastarg(publishCtx, 1, Iface) != nil && !doneAtEntry(lastarg(publishCtx, 1, Iface))
@@ -806,14 +808,14 @@ package eventbus
 //@ def P0(bus, from) posOf(old(log(payload(bus.store))), from)
 //@ def delivered(bus, from, L, n) (forall j int :: {nth(replayCb, j, 1)} 0 <= j && j < n ==> nth(replayCb, j, 1) == logAt(L, P0(bus, from) + j))
 //@ func (*EventBus).Replay
-//@   props C11
+//@   props C11 C12
 //@   requires bus != nil && ctx != nil && handler != nil
 //@   requires bus.store != nil ==> resumable(log(payload(bus.store)), from)
 //@   ensures [C11.nostore] bus.store == nil ==> result != nil && cnt(replayCb) == 0
 //@   ensures [C11.frame] cnt(Append) == 0 && cnt(deliver) == 0 && cnt(publishCtx) == 0
 // a failing callback ends the replay with an error: nil means every callback returned nil
 //@   ensures [C11.cb.err] (exists j int :: 0 <= j && j < cnt(replayCb) && nthres(replayCb, j) != nil) ==> result != nil
-//@   ensures [C11.stream.nil] bus.store != nil && implements_EventStoreStreamer(dynType(bus.store)) && result == nil ==>
+//@   ensures [C11.stream.nil] {C11,C12} bus.store != nil && implements_EventStoreStreamer(dynType(bus.store)) && result == nil ==>
 //@        cnt(replayCb) == seqLen(lastres(readStreamCall)) && seqErr(lastres(readStreamCall)) == nil
 //@   ensures [C11.stream.prefix] bus.store != nil && implements_EventStoreStreamer(dynType(bus.store)) ==>
 //@        cnt(readStreamCall) == 1 && cnt(readCall) == 0 && cnt(replayCb) <= seqLen(lastres(readStreamCall)) &&
@@ -823,7 +825,7 @@ package eventbus
 //@   iterate invariant [C11.stream.loop] cnt(replayCb) == iterk && result == nil && jump_1 == 0 && cnt(readStreamCall) == 1 && cnt(readCall) == 0 &&
 //@        cnt(Append) == 0 && cnt(deliver) == 0 && cnt(publishCtx) == 0 &&
 //@        (forall j int :: {nth(replayCb, j, 1)} 0 <= j && j < iterk ==> nth(replayCb, j, 1) == seqAt(iterator, j))
-//@   ensures [C11.paged.nil] bus.store != nil && !implements_EventStoreStreamer(dynType(bus.store)) && result == nil ==>
+//@   ensures [C11.paged.nil] {C11,C12} bus.store != nil && !implements_EventStoreStreamer(dynType(bus.store)) && result == nil ==>
 //@        P0(bus, from) + cnt(replayCb) == logLen(log(payload(bus.store)))
 //@   ensures [C11.paged.prefix] bus.store != nil && !implements_EventStoreStreamer(dynType(bus.store)) ==>
 //@        P0(bus, from) + cnt(replayCb) <= logLen(log(payload(bus.store))) && delivered(bus, from, log(payload(bus.store)), cnt(replayCb))
